@@ -336,7 +336,7 @@ def query_argument(ctx, rule):
     def get_cells():
         # writer then reader, interpreted: consulted only when a shape test below does not recognise the reader
         out = []
-        for k, v in (("k", "v v"), ("k&", "v"), ("k k", "a&b=c"), ("k", "100%"), ("k=", "v"), ("k", None)):
+        for k, v in (("k", "v v"), ("k&", "v"), ("k k", "a&b=c"), ("k", "100%"), ("k=", "v"), ("k", None), ("amp;lang", "fr"), ("AMP;x", "1"), ("k", "a&amp;b"), ("k;", "v;")):
             url = run_function(repo, aref, ["http://a.com/x?z=1", k, v])
             got = run_function(repo, gref, [url, k])
             out.append(("get_query_argument(%r, %r) -> %r" % (url, k, got), got == (True if v is None else v)))
@@ -344,6 +344,12 @@ def query_argument(ctx, rule):
             got = run_function(repo, gref, [url, k])
             out.append(("get_query_argument(%r, %r) -> %r" % (url, k, got), got == want))
         return out
+    # writer then reader on every key / value class, always (the shape tests below only explain a failure)
+    try:
+        for desc, ok in get_cells():
+            ctx.ob(rule, "get-after-add/%s" % desc.split(" -> ")[0][:70], ok, "%s: what add_query_argument wrote is not what get_query_argument reads back" % desc, ut.site(gref.node), witness=desc.split(" -> ")[0])
+    except Unknown as e:
+        ctx.undecided(rule, "get_query_argument / add_query_argument not interpretable: %s" % e)
     if wq:
         for r in value_rets:
             ctx.ob(rule, "get/unquotes-the-value", is_unq(r.term), "get_query_argument returns the stored value still percent-encoded (%s) although add_query_argument encoded it: 'v v' comes back as 'v%%20v'" % P.show(r.term, maxdepth=3),
